@@ -100,7 +100,7 @@ theorem renderE_head (e : E) (h : GoodE e) : ∃ c r, renderE e = c :: r ∧ isS
     by_cases hft : f = .text
     · subst hft
       have hne := bareText_ne_nil hg
-      simp only [goodAtom, Bool.and_eq_true, Bool.or_eq_true, List.all_eq_true] at hg
+      simp only [goodAtom, Bool.and_eq_true, Bool.or_eq_true] at hg
       cases q with
       | true => exact ⟨34, escapeQuoted t ++ [34], by simp [fieldPrefix, valueOf, quote], by decide⟩
       | false =>
@@ -110,7 +110,9 @@ theorem renderE_head (e : E) (h : GoodE e) : ∃ c r, renderE e = c :: r ∧ isS
           refine ⟨c, r, by simp [fieldPrefix, valueOf], ?_⟩
           rcases hg.1 with h1 | h1
           · cases h1
-          · exact isSpace_of_dflt (h1 c (by simp))
+          · rcases escPlain_head h1 with h2 | h2
+            · subst h2; decide
+            · exact isSpace_of_dflt h2
     · have hentry := prefKey_entry f a hft
       have hd := (prefixes_dflt _ hentry)
       rw [fieldPrefix_split]
